@@ -235,7 +235,7 @@ pub fn corpus_cases() -> Vec<TextCase> {
 pub fn main(mode: Mode) -> i32 {
     let p = Lossless;
     match mode {
-        Mode::Worker(_) => 2,
+        Mode::Worker(_) | Mode::Minimize(..) => 2,
         Mode::Replay(_, doc) => {
             let mut ctx = Ctx::new("C16", "quick");
             let rc = ctx.replay(&p, &doc);
